@@ -666,6 +666,23 @@ def parseOpKind (t : String) : Option OpKind :=
 def parseBool (t : String) : Option Bool :=
   if t == "0" then some false else if t == "1" then some true else none
 
+/-- What C07 demands of the OWNED conversion `Signals::to_direct_descriptor`
+(src/io_uring/process.rs:66-101: `ToDirectOp<Signals>`, `DirectFdMapper::map` replaces the
+regular `AsyncFd` by the direct one, which drops — i.e. closes — the regular one): in every
+outcome the signalfd descriptor is closed exactly once; on success the allocated direct slot
+is released exactly once when the `Signals` is dropped; on failure (`err:<errno>`, any errno
+that is not retried) the `Signals` is dropped with the failed operation and no slot exists.
+`EINVAL` is reported as `Unsupported` (`fallback`, op.rs:992-1000). -/
+def sigDirectSpec (outcome : String) : Option String :=
+  if outcome == "ok" then some "sigdirect ok regular-closes=1 direct-releases=1 regular-open=0"
+  else if outcome.startsWith "err:" then
+    match (outcome.drop 4).toString.toNat? with
+    | some e =>
+      if e = 0 ∨ e ≥ 4096 ∨ e = 4 ∨ e = 125 then none
+      else some s!"sigdirect err {if e = 22 then "Unsupported" else toString e} regular-closes=1 direct-releases=0 regular-open=0"
+    | none => none
+  else none
+
 def stepLine (s : Sys) (toks : List String) : Sys × List String :=
   match toks with
   | "fds" :: "begin" :: _ :: rest =>
@@ -674,6 +691,12 @@ def stepLine (s : Sys) (toks : List String) : Sys × List String :=
     | some sq, some slo, some slots, some flo, some fhi =>
       ({ sqLen := sq, slotLo := slo, slots := slots, fileLo := flo, fileHi := fhi }, [])
     | _, _, _, _, _ => (s, ["bad-op"])
+  | ["fds", "sigdirect", outcome] =>
+    -- `Signals::to_direct_descriptor` on a ring of its own (see `sigDirectSpec`); the state of this
+    -- component's ring is untouched
+    match sigDirectSpec outcome with
+    | some l => (s, [l])
+    | none => (s, ["bad-op"])
   | ["fds", "std", a, w] =>
     match parseNat a, parseNat w with
     | some a, some w => if a == s.handles.length then s.step (.std w) else (s, ["bad-op"])
